@@ -1,0 +1,15 @@
+//go:build verif
+
+// Contracts for gzv (contract-based deductive verification, /verif). Comment-only file.
+package rescue
+
+// Recover, deferred: runs every cleanup once, in order, then recovers an in-flight panic (the function that deferred it
+// returns normally). Trusted by inspection (two loops of three lines); callers execute their cleanup literals inline.
+//@ func Recover
+//@   trusted
+//@   flag runs_funcargs recovers
+//@   modifies nothing
+//@ func RecoverCtx
+//@   trusted
+//@   flag runs_funcargs recovers
+//@   modifies nothing
